@@ -337,6 +337,106 @@ def explore_corpus(job: dict) -> dict:
     return col.dump()
 
 
+# ---- full-stack level: a real Gateway + send stack + PortTransport, under the conditions that decide which id the gateway has ------
+async def _stack_case(loop: Any, case: dict) -> dict:
+    """One RQ / W through Gateway.async_send_cmd(wait_for_reply=True). The radio puts its REAL id into the echo; the reply is addressed to
+    that id. Varied: how the radio answers the library's signature poll (promptly / slower than the poll period / never), the device
+    filter (none / enforced with the gateway listed / enforced without any gateway entry), echo-then-reply or reply-then-echo."""
+    import asyncio
+
+    from ramses_tx import exceptions as exc
+    from ramses_tx.command import Command
+
+    from vf.env import stack, thinfsm as T, vclock
+
+    radio = "18:111111"
+    c = T.CMDS[case["cmd"]]
+    own = T.cmd_frame(c)
+    echo, reply = T.echo_frame(c, radio), T.reply_frame(c, radio)
+
+    class E(stack.Ether):
+        def broadcast(self, frame, origin=None):  # type: ignore[no-untyped-def,override]
+            if origin is None:
+                return super().broadcast(frame, None)
+            self.air_log.append((self.loop.time(), frame))
+            if " 7FFF " in frame:
+                if case["sig"] != "never":
+                    self.loop.call_later(0.005 if case["sig"] == "prompt" else case["sig_latency"], origin.receive, frame, "000")
+                return
+            if frame != echo:
+                origin.receive(frame, "000")
+                return
+            d_echo, d_rep = (0.02, 0.05) if case["order"] == "echo-first" else (0.06, 0.02)
+            for nm in case.get("near", []):
+                fr = T.near_miss(c, radio, nm)
+                if fr:
+                    self.loop.call_later(0.01, origin.receive, fr, "045")
+            self.loop.call_later(d_echo, origin.receive, echo, "000")
+            if reply:
+                self.loop.call_later(d_rep, origin.receive, reply, "045")
+
+    eth = E(loop)
+    known = None
+    cfg: dict[str, Any] = {"disable_discovery": True}
+    if case["lists"] != "none":
+        known = {c["dst"]: {}, "04:056053": {}}
+        if case["lists"] == "enforced-gwy-listed":
+            known[radio] = {"class": "HGI"}
+        cfg["enforce_known_list"] = True
+    gwy, port = await stack.make_gateway(eth, gwy_id=radio, config=cfg, known_list=known)
+    res: dict[str, Any] = {"active": gwy._transport.get_extra_info("active_gwy")}
+    try:
+        try:
+            pkt = await asyncio.wait_for(gwy.async_send_cmd(Command(own), max_retries=0, timeout=1.0, wait_for_reply=True), timeout=30)
+            res.update(outcome="pkt", frame=str(pkt) if pkt is not None else None)
+        except Exception as e:  # noqa: BLE001
+            res.update(outcome="exc", exc=type(e).__name__, family=isinstance(e, exc.ProtocolError), msg=str(e)[:200])
+        await vclock.quiesce()
+    finally:
+        await stack.stop_gateway(gwy)
+        eth.close()
+    res["echo"], res["reply"] = echo, reply
+    return res
+
+
+def judge_stack(case: dict, res: dict) -> list[tuple[dict, str]]:
+    cond = {"sig": case["sig"], "lists": case["lists"], "order": case["order"]}
+    if res["outcome"] == "pkt":
+        if res["frame"] not in (res["echo"], res["reply"]):
+            return [({"clause": "near-miss-taken", "level": "stack", **cond}, f"sent {res['echo']!r}, got {res['frame']!r}")]
+        return []
+    # every frame was delivered: the only way not to complete is not to recognise the echo (or the reply)
+    return [({"clause": "echo-or-reply-not-recognised", "level": "stack", **cond},
+             f"echo {res['echo']!r} and reply {res['reply']!r} were both delivered, the send ended with {res.get('exc')}: {res.get('msg')} (active gateway id known to the library: {res['active']})")]
+
+
+def explore_stack(job: dict) -> dict:
+    from hypothesis import strategies as st
+
+    from vf.env import thinfsm as T
+    from vf.env import vclock
+    from vf.env.quiet import quiet_logs
+
+    quiet_logs()
+    col = Collector()
+    cmds = [i for i, c in enumerate(T.CMDS) if c["src"] == T.HGI and c["verb"] in ("RQ", " W") and c["reply"] is not None and c["code"] != "0418"]
+    case_st = st.fixed_dictionaries({
+        "level": st.just("stack"), "cmd": st.sampled_from(cmds), "sig": st.sampled_from(("prompt", "slow", "slow", "never")),
+        "sig_latency": st.sampled_from((0.07, 0.12, 0.3, 0.8)), "lists": st.sampled_from(("none", "enforced-gwy-listed", "enforced-gwy-unlisted")),
+        "order": st.sampled_from(("echo-first", "reply-first")), "near": st.lists(st.sampled_from(("near-code", "near-verb", "near-src", "near-ctx")), max_size=2)})
+
+    def body(case: dict) -> None:
+        res, _ = vclock.run(_stack_case, case)
+        col.case(nt=jdump(case), classes=["stack", f"stack-sig:{case['sig']}", f"stack-lists:{case['lists']}", f"stack-order:{case['order']}",
+                                          "stack-id:known" if res["active"] else "stack-id:unknown"],
+                 sample={"case": case, "outcome": res["outcome"], "active": res["active"]})
+        for sig, d in judge_stack(case, res):
+            col.violation(sig, case, d)
+
+    hyp_explore(case_st, body, job["n"], job["seed"])
+    return col.dump()
+
+
 def run(ctx: Ctx, col: Collector) -> None:
     from vf.gen import frames as G
     from vf.gen import mutate as M
@@ -357,6 +457,7 @@ def run(ctx: Ctx, col: Collector) -> None:
     nreq = sum(1 for ln in M.corpus_pkt_lines() if ln[4:6] in ("RQ", " W") and ln[11:13] == "18")
     step = (nreq + k - 1) // k
     ctx.parallel(explore_corpus, [{"lo": a, "hi": min(a + step, nreq)} for a in range(0, nreq, step)], col)
+    ctx.parallel(explore_stack, ctx.shards(ctx.n(640, 20_000), per_shard_min=10), col)
     ctx.extra["rq_w_pairs"] = len(pairs)
     ctx.floors = [("rx:yes", "", 0.3), ("ctx:str", "", 0.2)]
 
@@ -365,6 +466,10 @@ def replay(case: dict) -> list[tuple[dict, str]]:
     from vf.env.quiet import quiet_logs
 
     quiet_logs()
+    if case.get("level") == "stack":
+        from vf.env import vclock
+
+        return judge_stack(case, vclock.run(_stack_case, case)[0])
     col = Collector()
     check(col, case["cmd"], case["gwy"], case.get("reply_payload"))
     return [(e["sig"], e["cases"][0]["detail"]) for e in col.violations.values()]
